@@ -54,19 +54,22 @@ func baseSpecs(n, devBound int, visit func(id string, mk func() *GraphSpec)) {
 					x.Choose(fmt.Sprintf("tkind%d", i), 5)
 				}
 			}
-			x.Choose("inset", 2)
+			if x.Choose("inset", 3) == 1 { // 0 direct arguments, 1 named set, 2 inline wire.NewSet
+				x.Choose("depth", 3)
+			}
 			x.Choose("lib", n+1)
 		}, func(x *explore.Ctx) {
 			ch := x.Map()
 			id := fmt.Sprintf("n=%d/dag=%d/%s", n, m, x.ID())
 			visit(id, func() *GraphSpec {
-				g := &GraphSpec{N: n, Adj: adj, Nodes: make([]NodeSpec, n), Root: n - 1, InSet: ch["inset"] == 1}
+				g := &GraphSpec{N: n, Adj: adj, Nodes: make([]NodeSpec, n), Root: n - 1, InSet: ch["inset"] == 1, Inline: ch["inset"] == 2}
 				for i := 0; i < n; i++ {
 					g.Nodes[i].Kind = ch[fmt.Sprintf("kind%d", i)]
 					g.Nodes[i].TKind = ch[fmt.Sprintf("tkind%d", i)]
 					g.Nodes[i].Lib = i < ch["lib"]
 				}
 				g.Split = g.InSet && ch["lib"] > 0
+				g.Depth = ch["depth"]
 				return g
 			})
 		})
@@ -141,8 +144,43 @@ func checkC06(c *h.Check) {
 			}
 		}
 	}
+	// Family C: twins -- two packages with the same package name and the same identifiers; one twin unprovided.
+	addProg := func(id string, prog *ir.Program) {
+		cs := &h.Case{ID: id, Files: ir.Render(prog, true), Drive: true, Judge: judgeProgramF(prog, true, map[string]bool{"wiring": true}, focus)}
+		if !c.NoteProgram(cs.Files) {
+			return
+		}
+		reject := false
+		for _, inj := range prog.Injectors {
+			if w := ir.NewModel().Solve(inj); len(w.Reasons) > 0 {
+				reject = true
+				kinds.inc("model:" + w.Reasons[0].Class)
+			}
+		}
+		if !reject {
+			kinds.inc("model:accept")
+		}
+		cases = append(cases, cs)
+	}
+	for a := 0; a < 2; a++ {
+		for bb := 0; bb < 2; bb++ {
+			for via := 0; via < 2; via++ {
+				for order := 0; order < 2; order++ {
+					addProg(fmt.Sprintf("C06/twins/a=%d/b=%d/sets=%d/order=%d", a, bb, via, order), twinProgram(a == 1, bb == 1, via == 1, order))
+				}
+			}
+		}
+	}
+	// Family D: two injectors over shared set objects; the second lacks what the first one's wrapper set adds.
+	for kind := 0; kind < 6; kind++ {
+		for order := 0; order < 2; order++ {
+			for fat := 0; fat < 2; fat++ {
+				addProg("C06/"+leakID(kind, order, fat == 1), leakProgram(kind, order, fat == 1))
+			}
+		}
+	}
 	results := c.JudgeAll(cases)
-	stdCoverage(c, cases, results, "A: every accepted base program (all DAGs on <=4 nodes, thorough 5, with every node reachable; node kind/type shape/placement deviations) with each single Build/NewSet item left out; B: near-miss substitutions (T vs *T both ways, implementation without binding, named vs underlying both ways, other named type, alias which must stay accepted) at every node of four shapes. Oracle: model verdict == wire verdict; a rejection names the missing type (or the unprovided concrete type of a binding) and writes nothing; accepted programs are compiled, run and trace-checked. Distinct = distinct rendered source.")
+	stdCoverage(c, cases, results, "C: twin packages (same package name, same identifiers, different import paths) with either twin unprovided; D: two injectors over shared set objects where only the first one's wrapper set adds the source (binding, value, function, field, struct, interface value) the second one lacks, both declaration orders; A: every accepted base program (all DAGs on <=4 nodes, thorough 5, with every node reachable; node kind/type shape/placement deviations) with each single Build/NewSet item left out; B: near-miss substitutions (T vs *T both ways, implementation without binding, named vs underlying both ways, other named type, alias which must stay accepted) at every node of four shapes. Oracle: model verdict == wire verdict; a rejection names the missing type (or the unprovided concrete type of a binding) and writes nothing; accepted programs are compiled, run and trace-checked. Distinct = distinct rendered source.")
 	c.Coverage["model_verdict_classes"] = kinds.summary()
 	sampleCase(c, cases, results)
 	if kinds["model:missing"] < 20 || kinds["model:accept"] < 5 {
